@@ -25,6 +25,14 @@ impl<L: Language, N: Analysis<L>> EGraph<L, N> {
         subst: &Subst,
         #[allow(unused)] justification: Option<String>,
     ) -> bool {
+        // Both sides have to mention the same slots for the redundant arguments of the substituted classes.
+        // Otherwise the explicit equation below is no instance of `from_pat = to_pat`.
+        #[cfg(feature = "explanations")]
+        let subst = &subst
+            .iter()
+            .map(|(v, app)| (v.clone(), self.synify_app_id(app.clone())))
+            .collect();
+
         let a = pattern_subst(self, from_pat, subst);
         let b = pattern_subst(self, to_pat, subst);
 
